@@ -39,6 +39,22 @@ Fixpoint monotone (prev : list (positive * nat)) (l : list (list (positive * nat
       && monotone cur rest
   end.
 
+(* an attachment to a materialization that held a payload before the event must have been refused (the harness reports
+   the payload holders after each event; before the first one there are none) *)
+Fixpoint attaches_refused (prev : list (positive * nat)) (evs : list event) (outs : list oclass)
+    (pls : list (list (positive * nat))) : bool :=
+  match evs, outs, pls with
+  | ev :: evs', o :: outs', cur :: pls' =>
+      (match ev, o with
+       | EvAttach (Mat n _) _, CUnit => negb (existsb (fun kv => Pos.eqb (fst kv) n) prev)
+       | EvAttach (Mat _ _) _, _ => true
+       | EvAttach (Leaf _ _ _ _ _) _, CUnit | EvAttach (Un _ _) _, CUnit | EvAttach (Bin _ _ _) _, CUnit =>
+           false                                  (* only marker relations accept a payload at all *)
+       | _, _ => true
+       end) && attaches_refused cur evs' outs' pls'
+  | _, _, _ => true
+  end.
+
 Definition check_hist (c : hist_case) : N :=
   let env := mkenv (hc_env c) in
   let tr := run_trace env 0 (hc_events c) (XS ∅ []) in
@@ -46,7 +62,8 @@ Definition check_hist (c : hist_case) : N :=
                && forallb (fun x => oclass_eqb (fst (fst x)) (snd x)) (combine tr (hc_outcomes c))
                && forallb (fun x => pl_eqb (snd (fst x)) (snd x)) (combine tr (hc_payloads c))
             then 0 else 1 in
-  let c4 := if monotone [] (hc_payloads c) && forallb (fun kv => Nat.leb (snd kv) 1) (hc_upstream_evals c) then 0 else 4 in
+  let c4 := if monotone [] (hc_payloads c) && forallb (fun kv => Nat.leb (snd kv) 1) (hc_upstream_evals c)
+               && attaches_refused [] (hc_events c) (hc_outcomes c) (hc_payloads c) then 0 else 4 in
   c1 + c4.
 
 (* Processor histories (several process() + execute calls over trees sharing materialization nodes across engines):
